@@ -137,8 +137,31 @@ def exc_wrapper(E, st, args, kw):
     return [Res(st, st.new_obj("Pyro5.core._ExceptionWrapper", exception=args[0]))]
 
 
+for _q in ("builtins.set", "builtins.frozenset", "builtins.dict", "builtins.tuple", "builtins.list"):
+    if _q not in R.globals and _q not in R.specs:
+        R.glob(_q, VClass(_q, None), "a builtin container class (only used in isinstance tests)")
+
+
+def is_plain(x, kinds=("list", "tuple")):
+    """x is an instance of one of the builtin container classes (the isinstance test of the code, uninterpreted per class)"""
+    return z3.Or([z3.Function("isinstance_builtins." + k, U, BoolS)(x) for k in kinds])
+
+
+def _taken_apart(E, st, v, what, kinds=("list", "tuple")):
+    # C04 "decoding never ... opens sockets": a member of a class dict may ALREADY be a revived object (msgpack's object_hook runs bottom-up) - a Proxy answers iteration,
+    # indexing, len() and attribute access by calling its remote object.  So a member is unpacked / iterated / measured only after it was seen to be a plain container.
+    E.oblige(st, "%s is taken apart only after it was checked to be a plain %s (a revived Proxy would be called)" % (what, " / ".join(kinds)),
+             is_plain(v.e, kinds) if isinstance(v, VOpaque) else z3.BoolVal(isinstance(v, (VTuple, VList))), kind="pre")
+
+
 for _cls in ("Pyro5.core.URI", "Pyro5.client.Proxy", "Pyro5.server.Daemon"):
     def _setstate(E, st, args, kw, _c=_cls):
+        state = args[-1]
+        _taken_apart(E, st, state, "the state handed to %s.__setstate__" % _c.rsplit(".", 1)[-1])
+        if _c.endswith("Proxy") and isinstance(state, VOpaque):
+            for i in (1, 2, 3):
+                member = VOpaque(u_getitem(state.e, box_int(z3.IntVal(i))))
+                _taken_apart(E, st, member, "member %d of a proxy state (iterated into a set)" % i, ("list", "tuple", "set", "frozenset"))
         s2 = st.fork()
         return [Res(st, NONE), Res(s2, exc=E.new_sym_exc(s2, "builtins.Exception", "setstate"))]
     R.spec(_cls + ".__setstate__", doc="restores plain attributes from the state tuple (Proxy: re-parses the URI text); no I/O - see the syntactic closure check")(_setstate)
@@ -240,7 +263,7 @@ class DictToClass(Contract):
     raises = {"builtins.Exception": "x_any"}
     raises_any_subclass = ("builtins.Exception",)
     no_join = True
-    trusted = ("the decoded payload is plain data (dict with string keys) - what the library decoders yield; all_exceptions holds only BaseException subclasses "
+    trusted = ("the decoded payload is a dict with string keys; its MEMBERS are arbitrary values (plain data, or - msgpack revives bottom-up - objects this function built earlier); all_exceptions holds only BaseException subclasses "
                "(built with that filter at import time); module attribute lookup and issubclass are uninterpreted",)
 
     def setup(self, E, st):
